@@ -22,6 +22,7 @@ package main
 // invent one.
 
 import (
+	"os"
 	"fmt"
 	"go/token"
 	"go/types"
@@ -109,6 +110,9 @@ type ffSinkEvent struct {
 	Pos    token.Pos
 	Fn     *ssa.Function
 	Labels labelSet
+	// Data: what arrives through data derivations only (control influence
+	// left out) — the U bit here speaks about the value itself.
+	Data labelSet
 }
 
 type FFConfig struct {
@@ -414,6 +418,36 @@ func (e *ffEngine) flowV(v ssa.Value, src labelSet, mask uint8) {
 	e.flowS(dst, src, mask, e.ptrOK[v])
 }
 
+// selfLabel: the label of source field idx of xt, or -1.
+func (e *ffEngine) selfLabel(xt types.Type, idx int) lab {
+	if k, named, _ := fieldKey(xt, idx); named != nil && e.cfg.IsSource != nil && e.cfg.IsSource(named) {
+		return internLab(k)
+	}
+	return -1
+}
+
+// flowExcept: like flowV but leaves label skip out. A read of source field k
+// yields, by definition, k unaltered: what the flow-insensitive memory cells
+// (or the labels riding on the object pointer) say about older, possibly
+// altered, copies of k does not change that; sourceField adds k itself.
+func (e *ffEngine) flowExcept(v ssa.Value, src labelSet, mask uint8, skip lab) {
+	if skip < 0 {
+		e.flowV(v, src, mask)
+		return
+	}
+	if _, has := src[skip]; !has {
+		e.flowV(v, src, mask)
+		return
+	}
+	tmp := make(labelSet, len(src))
+	for l, b := range src {
+		if l != skip {
+			tmp[l] = b
+		}
+	}
+	e.flowS(e.val(v), tmp, mask, e.ptrOK[v])
+}
+
 // flowC: src -> memory cell (keeps "@" labels: memory may hold pointers).
 func (e *ffEngine) flowC(cell string, src labelSet, mask uint8) {
 	e.flowS(e.cell(cell), src, mask, true)
@@ -424,15 +458,20 @@ func (e *ffEngine) flowS(dst labelSet, src labelSet, mask uint8, addr bool) {
 		if !addr && l.isAddr() {
 			continue
 		}
-		_, had := dst[l]
+		old, had := dst[l]
 		if dst.add(l, b&mask) {
 			e.change = true
+			if debugUDrop != "" && had && old&bitU != 0 && dst[l]&bitU == 0 && l.String() == debugUDrop {
+				fmt.Printf("   udrop %s: in %s from %s (bits %d mask %d)\n", debugUDrop, e.owner[setID(dst)], e.owner[setID(src)], b, mask)
+			}
 			if !had && !l.isAddr() {
 				e.note(dst, src, l)
 			}
 		}
 	}
 }
+
+var debugUDrop = os.Getenv("GWUDROP")
 
 func (e *ffEngine) allocLab(v ssa.Value) lab {
 	if n, ok := e.allocN[v]; ok {
@@ -579,13 +618,15 @@ func (e *ffEngine) record(fn *ssa.Function, sink string, pos token.Pos, labels l
 	key := sink + "|" + fnKey(fn) + "|" + fmt.Sprint(int(pos))
 	ev := e.events[key]
 	if ev == nil {
-		ev = &ffSinkEvent{Sink: sink, Pos: pos, Fn: fn, Labels: labelSet{}}
+		ev = &ffSinkEvent{Sink: sink, Pos: pos, Fn: fn, Labels: labelSet{}, Data: labelSet{}}
 		e.events[key] = ev
 		e.own(ev.Labels, "sink:"+key)
+		e.own(ev.Data, "sinkdata:"+key)
 		e.change = true
 	}
 	if labels != nil {
 		e.flowS(ev.Labels, labels, bitN|bitU, false)
+		e.flowS(ev.Data, labels, bitN|bitU, false)
 	}
 	if extra != nil {
 		e.flowS(ev.Labels, extra, bitN, false)
@@ -631,13 +672,14 @@ func (e *ffEngine) step(fn *ssa.Function, b *ssa.BasicBlock, in ssa.Instruction)
 			e.change = true
 		}
 	case *ssa.FieldAddr:
-		e.flowV(x, e.val(x.X), all)
+		e.flowExcept(x, e.val(x.X), all, e.selfLabel(x.X.Type(), x.Field))
 		e.sourceField(x, x.X.Type(), x.Field, x.Pos())
 	case *ssa.Field:
-		e.flowV(x, e.val(x.X), all)
+		self := e.selfLabel(x.X.Type(), x.Field)
+		e.flowExcept(x, e.val(x.X), all, self)
 		e.sourceField(x, x.X.Type(), x.Field, x.Pos())
 		if k, named, _ := fieldKey(x.X.Type(), x.Field); named != nil && inModuleType(named) {
-			e.flowV(x, e.cell("F:"+k), all)
+			e.flowExcept(x, e.cell("F:"+k), all, self)
 		}
 	case *ssa.IndexAddr:
 		e.flowV(x, e.val(x.X), all)
@@ -652,8 +694,16 @@ func (e *ffEngine) step(fn *ssa.Function, b *ssa.BasicBlock, in ssa.Instruction)
 		switch x.Op {
 		case token.MUL, token.ARROW: // load / receive
 			e.flowV(x, e.val(x.X), all)
+			// A read of source field k yields, by definition, k unaltered:
+			// what the flow-insensitive memory cells say about older
+			// (possibly altered) copies of k stored into the same object
+			// does not change that.
+			self := lab(-1)
+			if fa, ok := x.X.(*ssa.FieldAddr); ok && x.Op == token.MUL {
+				self = e.selfLabel(fa.X.Type(), fa.Field)
+			}
 			for _, c := range e.loadCells(x.X) {
-				e.flowV(x, e.cell(c), all)
+				e.flowExcept(x, e.cell(c), all, self)
 			}
 			if x.Op == token.MUL {
 				// whole-struct load: include the (shallow) field cells
